@@ -107,6 +107,23 @@ impl Compound {
         }
     }
 
+    /// The constituent units as `(name, power, prefix)` for the verification
+    /// hooks, where a derived unit is named by `#` and its identifier.
+    #[cfg(feature = "verif")]
+    pub(crate) fn verif_names(&self) -> Vec<(String, i32, i32)> {
+        self.names
+            .iter()
+            .map(|(unit, state)| {
+                let name = match unit {
+                    Unit::Derived(derived) => format!("#{}", derived.id),
+                    unit => format!("{:?}", unit),
+                };
+
+                (name, state.power, state.prefix)
+            })
+            .collect()
+    }
+
     /// Test if this unit has a numerator.
     pub fn has_numerator(&self) -> bool {
         self.names.values().any(|s| s.power > 0)
